@@ -349,15 +349,16 @@ def slip(ctx):
     def kernel(*a):
         rec.append(a)
         return 'SLIP'
-    for tag, kw, want_nl in (('neighbors given', dict(neighbors=NLs('given')), 'nlist_given'), ('cutoff given', dict(cutoff=3), 'nlist_built'), ('reference system carries a list', {}, 'nlist_attr')):
+    for tag, kw, want_nl in (('neighbors given', dict(neighbors=NLs('given')), 'nlist_given'), ('cutoff given', dict(cutoff=3), 'nlist_built'), ('reference system carries a list', {}, 'nlist_attr'),
+                              ('cutoff given although the reference system carries a list (the explicit request wins)', dict(cutoff=3), 'nlist_built')):
         rec.clear()
         built = []
-        s0 = Sy('0', nb=NLs('attr') if tag.startswith('reference') else None)
+        s0 = Sy('0', nb=NLs('attr') if 'carries a list' in tag else None)
         s1 = Sy('1')
         ev = _ev(ctx, SV, slip_vector_c=kernel, NeighborList=lambda **k: (built.append(k) or NLs('built')))
         r = _one(ev.run_fn(w, [s0, s1], dict(kw)), 'slip_vector').ret
         ok = r == 'SLIP' and len(rec) == 1 and rec[0] == ('pos_0', 'pos_1', 'vects_0', want_nl, '0a', '0b', '0c')
-        if tag == 'cutoff given':
+        if tag.startswith('cutoff given'):
             ok = ok and len(built) == 1 and built[0].get('system') is s0 and built[0].get('cutoff') == 3
         ctx.ob('SLIP', locw, '%s: the kernel gets reference positions, current positions, the reference cell and flags, and the neighbour list of the reference system' % tag, ok, str(rec)[:200], node=w, key='wrapper ' + tag)
     paths = _ev(ctx, SV, slip_vector_c=kernel).run_fn(w, [Sy('0', natoms=4), Sy('1', natoms=5)], {'cutoff': 3})
